@@ -310,7 +310,7 @@ class Report:
             return
         self.violations.append((key, payload))
 
-    def finish(self):
+    def finish(self, write_evidence=True):
         os.makedirs(os.path.join(VERIF, 'replays'), exist_ok=True)
         os.makedirs(os.path.join(VERIF, 'evidence'), exist_ok=True)
         for key, text in self.known.items():
@@ -345,8 +345,9 @@ class Report:
         ev = {'property_id': self.pid, 'tier': self.tier, 'seed': self.seed, 'level': 'model_checking',
               'coverage': cov, 'assumptions': self.assumptions,
               'wall_s': round(time.time() - self.t0, 2), 'violations': nv}
-        with open(os.path.join(VERIF, 'evidence', self.pid + '.json'), 'w') as f:
-            json.dump(ev, f, indent=1, default=repr)
+        if write_evidence:     # a --replay run re-examines one case; it must not replace the evidence of a full run
+            with open(os.path.join(VERIF, 'evidence', self.pid + '.json'), 'w') as f:
+                json.dump(ev, f, indent=1, default=repr)
         print('%s tier=%s seed=%d states=%d transitions=%d traces=%d replayed=%d violations=%d known=%d wall=%.1fs'
               % (self.pid, self.tier, self.seed, self.states, self.transitions, self.traces, self.replayed, nv,
                  len(self.known_hit), time.time() - self.t0))
